@@ -76,6 +76,7 @@ def main(ctx, args):
     pipe_srcs = sorted({p["ren_src"] for p in pairs if p.get("pipe")} | {p["orig_src"] for p in pairs if p.get("pipe")})
     ftrees = sc.run_trees([(srcs[s], s, "front" if "`" in s else "plain") for s in pipe_srcs]) if pipe_srcs else {}
     viol, modelbad, samples, nontriv = [], [], [], set()
+    viol_clash = []
     clash_diff, clash_same, by_why = 0, 0, collections.Counter()
     for p in pairs:
         io, ir = srcs[p["orig_src"]], srcs[p["ren_src"]]
@@ -122,6 +123,11 @@ def main(ctx, args):
                 clash_diff += 1
                 for w in p["why"]:
                     by_why[w] += 1
+                # the listed capture defect F6 is a property of the pinned expansion algorithm, which the model reproduces:
+                # a clash pair that differs on the implementation although the MODEL gives both renderings the same output
+                # is a capture the pinned algorithm does not have — a new violation, with this pair as the failing input
+                if io in model and ir in model and model[io][2] == model[ir][2] and model[io][2].startswith("ok"):
+                    viol_clash.append((p, diff, outs[io], outs[ir]))
             else:
                 clash_same += 1
     # known findings: replay the listed pairs (S2 needs a compiler thread whose temporary counter is still 0: own process)
@@ -137,6 +143,12 @@ def main(ctx, args):
             ctx.known_finding(f"{k['id']} {k['what']} [still fails on {be}: {a[:40]} vs {b[:40]}{extra}]")
         else:
             ctx.notes.append(f"known finding {k['id']} no longer reproduces")
+    if viol_clash and not viol:
+        viol_clash.sort(key=lambda v: len(v[0]["orig_src"]) + len(v[0]["ren_src"]))
+        p, diff, a, b = viol_clash[0]
+        ctx.violation(f"renaming the binder `{p.get('binder')}` of the macro body to `{p.get('new')}` changes the program in a way the pinned expansion algorithm (Model/Stage.lean, which reproduces the listed capture F6) does not: the model gives both renderings the same output ({len(viol_clash)} clash pairs, on {', '.join(diff)}); outputs {b[0][:60]} vs {a[0][:60]}; smallest renamed program:\n{p['ren_src']}\n--- original\n{p['orig_src']}",
+                      {"orig_src": p["orig_src"], "src": p["ren_src"], "orig_sx": p.get("orig_sx"), "sx": p.get("ren_sx"), "noclash": False, "differs_on": diff, "why_clash": p.get("why"),
+                       "binder": p.get("binder"), "new": p.get("new"), "orig_outcome": [x[:300] for x in a], "renamed_outcome": [x[:300] for x in b], "failing_pairs": len(viol_clash), "times": TIMES})
     if viol:
         viol.sort(key=lambda v: len(v[0]["orig_src"]) + len(v[0]["ren_src"]))
         p, diff, a, b = viol[0]
@@ -151,7 +163,7 @@ def main(ctx, args):
         else:
             ctx.violation(f"renaming the binder `{p.get('binder')}` of the macro body to `{p.get('new')}` changes the program although nothing clashes "
                           f"({len(viol)} NoClash pairs differ); smallest renamed program:\n{p['ren_src']}\n--- original\n{p['orig_src']}", rep)
-    elif modelbad:
+    elif modelbad and not viol_clash:
         p, i, impl, mdl = modelbad[0]
         rep = {"orig_src": p["orig_src"], "src": p["ren_src"], "orig_sx": p.get("orig_sx"), "sx": p.get("ren_sx"), "noclash": p["noclash"],
                "impl": impl[:400], "model": mdl[:400], "cases": len(modelbad), "correspondence": "Model/Stage.lean vs the real staging pipeline"}
